@@ -154,17 +154,25 @@ def gen_project(rng, nmax=7, with_deps=True, with_regen=False, with_pools=False)
                 opts.append("depsfrom=%s" % depsrc)
         if rng.random() < 0.15:
             opts.append("restat")
-        builds.append({"outs": outs, "ex": ex, "im": im, "oo": oo, "opts": opts, "tag": "t%d" % i,
+        builds.append({"outs": outs, "ex": ex, "im": im, "oo": oo, "opts": opts, "tag": "t%d" % i, "msvc": rng.random() < 0.25,
                        "pool": rng.choice(pools)[0] if pools and rng.random() < 0.7 else None})
         outs_all.append(outs)
+    regen_oo = with_regen is True and rng.random() < 0.4
+    if regen_oo:
+        # the generator's generated input is shared with ordinary steps (which may have further generated inputs)
+        for b in builds:
+            if rng.random() < 0.4:
+                b[rng.choice(["im", "oo", "ex"])].append("cfgstamp")
     info = {"builds": builds, "sources": sources, "headers": headers, "outs_all": outs_all, "regen": with_regen, "pools": pools,
-            "regen_last": bool(with_regen) and rng.random() < 0.5, "regen_oo": with_regen is True and rng.random() < 0.3,
+            "regen_last": bool(with_regen) and rng.random() < 0.5, "regen_oo": regen_oo, "regen_dep_kind": rng.choice(["||", "|", ""]),
             "default": [rng.choice(outs_all)[0]] if with_regen and rng.random() < 0.4 else None}
     return manifest_text(info), info
 
 
 def manifest_text(info):
     lines = ["rule r", "  command = cmd $tag $out $opts"]
+    if any(b.get("msvc") for b in info["builds"]):
+        lines += ["rule rm", "  command = cmd $tag $out $opts", "  deps = msvc"]     # same command, dependencies arrive as /showIncludes notes
     for pn, pd in info.get("pools", []):
         lines += ["pool %s" % pn, "  depth = %d" % pd]
     if info.get("regen") == "include":
@@ -172,13 +180,13 @@ def manifest_text(info):
     regen_block = []
     if info.get("regen") and info.get("regen") != "include":
         regen_block = ["rule regen", "  command = cmd regen gen=manifest.in",
-                       "build build.ninja: regen manifest.in" + (" || cfgstamp" if info.get("regen_oo") else "")]
+                       "build build.ninja: regen manifest.in" + (" %s cfgstamp" % info.get("regen_dep_kind", "||") if info.get("regen_oo") else "")]
         if info.get("regen_oo"):
             regen_block += ["build cfgstamp: r cfg.src", "  tag = cfg"]
         if not info.get("regen_last"):
             lines += regen_block
     for b in info["builds"]:
-        l = "build %s: r %s" % (" ".join(b["outs"]), " ".join(b["ex"]))
+        l = "build %s: %s %s" % (" ".join(b["outs"]), "rm" if b.get("msvc") else "r", " ".join(b["ex"]))
         if b["im"]:
             l += " | " + " ".join(b["im"])
         if b["oo"]:
@@ -200,11 +208,25 @@ WRAPPER = ("rule regen\n  command = cmd regen gen=wrapper.in gen1=rules.in resta
            "build build.ninja rules.ninja: regen rules.in\ninclude rules.ninja\n")
 
 
+def respell_path(rng, p):
+    """another spelling of the relative path p (same location lexically)"""
+    r = rng.random()
+    if r < 0.3:
+        return "./" + p
+    if r < 0.5:
+        return ".//" + p
+    if r < 0.8:
+        return "%s/../%s" % (rng.choice(["zz", "inc", "a.b"]), p)
+    return "./q/.././" + p
+
+
 def src_content(rng, headers):
     inc = rng.sample(headers, rng.randint(0, 2))
     extra = []
-    if rng.random() < 0.2:
-        extra.append("./" + rng.choice(headers))          # another spelling
+    if rng.random() < 0.3:
+        extra.append(respell_path(rng, rng.choice(headers)))          # another spelling
+        if rng.random() < 0.3:
+            extra.append(respell_path(rng, rng.choice(headers)))
     if rng.random() < 0.1:
         extra.append("missing_%d.h" % rng.randint(0, 2))   # reported but absent
     return "".join("#include %s\n" % h for h in inc + extra) + "// v%d\n" % rng.randint(0, 999)
@@ -299,6 +321,8 @@ def gen_history(rng, nmax=6, with_regen=False, ninv=None, with_pools=False):
         j = rng.choice([1, 2, 3])
         k = rng.choice([None, None, 1, 2])
         targets = [] if rng.random() < 0.6 else [rng.choice(outs_flat) for _ in range(rng.randint(1, 2))]
+        if targets and rng.random() < 0.3:
+            targets = [respell_path(rng, t) if rng.random() < 0.6 else t for t in targets]     # the command line spells them differently
         if with_regen and rng.random() < 0.08:
             targets = ["build.ninja"]
         script = S.gen_script(rng, rng.randint(0, 8), fail_rate=rng.choice([0, 0, 0, 0.2]), interrupt_rate=rng.choice([0, 0, 0.05]))
